@@ -165,7 +165,7 @@ def run_case(case, ctx):
                 break
         if (not pref or 4 in pref) and not any(ip == other['ip'] for (_f, ip, _p, _o) in rec['connects']):
             out.append(viol('C18 a target listed in the file was never contacted', '%r\n%s' % (ospell, ctx_txt)))
-        rec = dict(rec, resolver=[q for q in rec['resolver'] if q[0] != other['host']], connects=[c for c in rec['connects'] if c[1] != other['ip']])
+        rec = dict(rec, resolver=[q for q in rec['resolver'] if q[0] not in (other['host'], other['ip'])], connects=[c for c in rec['connects'] if c[1] != other['ip']])
     for (qh, qp, qf) in rec['resolver']:
         if qh != host and qh not in addrs:
             out.append(viol('C18 resolver asked for a host that was not named (%s, -p %s)' % (src, 'given' if case['popt'] is not None else 'absent'), 'asked %r\n%s' % (qh, ctx_txt)))
